@@ -76,6 +76,25 @@ def is_strish(e: ast.expr, env: dict[str, list]) -> bool:
     return False
 
 
+def _fold_const(e: ast.expr) -> ast.Constant | None:
+    """Constant, or an and/or of constants (``0 or '0'``) folded to the constant Python would produce."""
+    if isinstance(e, ast.Constant):
+        return e
+    if isinstance(e, ast.BoolOp):
+        vals = [_fold_const(x) for x in e.values]
+        if any(v is None for v in vals):
+            return None
+        cur = vals[0]
+        for v in vals[1:]:
+            take_next = bool(cur.value) if isinstance(e.op, ast.And) else not bool(cur.value)  # type: ignore[union-attr]
+            if take_next:
+                cur = v
+            else:
+                break
+        return cur
+    return None
+
+
 def coalesce(segs: list) -> list:
     """Adjacent literal pieces are one literal (how the text was split over f-strings / concatenations is immaterial)."""
     out: list = []
@@ -108,7 +127,10 @@ def _eval_str(e: ast.expr, env: dict[str, list], alias: dict[str, ast.expr]) -> 
                 spec = None
                 if v.format_spec is not None:
                     spec = norm(v.format_spec)
-                if isinstance(v.value, ast.Name) and v.value.id in env and not conv and spec is None:
+                folded = _fold_const(v.value)
+                if folded is not None and conv in ("", "s") and spec is None and isinstance(folded.value, (str, int)) and not isinstance(folded.value, bool):
+                    out.append(Lit(str(folded.value)))  # a constant formatted into the text is that text
+                elif isinstance(v.value, ast.Name) and v.value.id in env and not conv and spec is None:
                     out.extend(env[v.value.id])
                 elif not conv and spec is None and isinstance(v.value, ast.Call) and is_strish(v.value, env):
                     out.extend(eval_str(v.value, env, alias))  # "".join(...) formatted into the text
